@@ -111,6 +111,24 @@ Definition msg_to_list (sc : schema) (m : msg) : m2l_res :=
            end
   end.
 
+(** a message whose fields have the types of its struct and whose integers
+    fit their Go types (uint64 for ids, int for the ERROR request type) *)
+Definition wf_fval (k : fkind) (v : fval) : bool :=
+  fval_kind_ok k v
+  && match v with
+     | FId n => int_in_range KU64 n
+     | FMt z => int_in_range KI64 z
+     | _ => true
+     end.
+
+Definition wf_msg (sc : schema) (m : msg) : bool :=
+  match find_struct (m_struct m) (sc_structs sc) with
+  | Some s =>
+      Nat.eqb (List.length (s_fields s)) (List.length (m_fields m))
+      && forallb (fun p => wf_fval (f_kind (fst p)) (snd p)) (combine (s_fields s) (m_fields m))
+  | None => false
+  end.
+
 (** ** listToMsg *)
 
 (** the Go types a decoder hands to [listToMsg] *)
@@ -325,6 +343,29 @@ Section ListToMsg.
         end
     end.
 End ListToMsg.
+
+(** ** What a round trip does to a message, given what it does to a value *)
+
+Definition canon_fval_by (c : value -> value) (v : fval) : fval :=
+  match v with
+  | FDict (Some d) => FDict (Some (map (fun kv => (fst kv, c (snd kv))) d))
+  | FList (Some l) => FList (Some (map c l))
+  | _ => v
+  end.
+
+Definition canon_msg_by (c : value -> value) (m : msg) : msg :=
+  {| m_struct := m_struct m; m_fields := map (canon_fval_by c) (m_fields m) |}.
+
+(** nil and empty containers are the same message content *)
+Definition fval_norm (v : fval) : fval :=
+  match v with
+  | FDict None => FDict (Some [])
+  | FList None => FList (Some [])
+  | _ => v
+  end.
+
+Definition msg_norm (m : msg) : msg :=
+  {| m_struct := m_struct m; m_fields := map fval_norm (m_fields m) |}.
 
 (** ** Predicates used by the theorems *)
 
